@@ -112,7 +112,7 @@ def page_jobs(prop, tier):
                                                                       "core.read_def"]))
     out.append(ch(prop, "vf/pyshim/h_skip.py", "h_skip_nulls", t,
                   ["core.read_col", "core.read_data_page", "core.read_def", "core.skip_definition_bytes"]))
-    for h in ("h_levels", "h_levels_two_columns", "h_list_shape", "h_map_shape"):
+    for h in ("h_levels", "h_levels_two_columns", "h_list_shape", "h_list_shape_types", "h_map_shape"):
         out.append(ch(prop, "vf/pyshim/h_schema.py", h, t, ["schema.SchemaHelper", "schema._is_list_like",
                                                            "schema._is_map_like"]))
     return out
